@@ -233,6 +233,30 @@ class Loop:
     def element_names(self):
         return sorted({a.name for a in self.arms if a.is_element() and a.name})
 
+    def loop_is_result(self):
+        """Is the loop this match sits in the value the function returns (its tail expression)?  Then `break Err(e)` is `return Err(e)`."""
+        if self.depth != 0:
+            return False
+        e = T.user_body(self.thir)
+        for _ in range(12):
+            if not isinstance(e, dict):
+                return False
+            k = e.get("k")
+            if k in ("Block", "Scope") and e.get("expr") is not None:
+                e = e["expr"]
+            elif k in ("Use", "NeverToAny", "Coerce", "Cast") and e.get("arg") is not None:
+                e = e["arg"]
+            elif k == "Loop":
+                return any(n is self.match or (n.get("k") == "Match" and n.get("sp") and n.get("sp") == self.match.get("sp")) for n in T.walk(e["body"]))
+            else:
+                return False
+        return False
+
+    def arm_fails(self, a):
+        """The arm ends the reading with an error: `return Err(..)`, or `break Err(..)` out of a loop that is the function's result."""
+        t = a.body_text()
+        return "returnResult::Err(" in t or ("breakResult::Err(" in t and self.loop_is_result())
+
     def label(self):
         base = short_fn(self.fn)
         if self.parent_arm is not None and self.parent_arm.name:
@@ -310,7 +334,7 @@ def lenient_arms(lp):
     for a in lp.arms:
         if a.catch_all or not (a.kinds & {"Start", "Empty", "Text", "CData"}):
             continue
-        if a.name is None and "returnResult::Err(" not in a.body_text():
+        if a.name is None and not lp.arm_fails(a):
             out.append(a)
     return out
 
